@@ -29,6 +29,10 @@ typedef struct rcase {
 
 extern rcase_t g_case;
 long cfg_get(const char* key, long dflt);
+// cfg dirty k>0: the object is about to be initialised in memory that is not zero (a stack slot, a recycled heap chunk,
+// an object that is destroyed and initialised again): fill it with a byte pattern first
+void rt_dirty(void* p, unsigned long n);
+#define RT_DIRTY(obj) rt_dirty(&(obj), sizeof(obj))
 extern int rt_tolerate_known_reads;
 void rt_known_read_site(int enter);
 
@@ -60,6 +64,7 @@ void g_sleep_enter(int idx); // fiber enters a sleep call (virtual time advances
 void g_sleep_exit(int idx);
 int g_sleepers(void);
 uint64_t g_switch_seq(void);
+void g_yield_noswitch(int idx);
 int g_fiber_switches(int idx);  // number of times program fiber idx was switched in
 void g_expect_kernel_block(int on);
 void* g_fiber_ptr(int idx);
@@ -75,7 +80,8 @@ typedef struct swlog {
   int16_t who[8192];  // program fiber idx, -1 main, -2 maintenance, -3 other
 } swlog_t;
 const swlog_t* g_swlog(int vthread);
-// global event log: type 0 = switch-in on 'thread', 1 = made runnable on 'thread'
+// global event log: type 0 = switch-in on 'thread', 1 = made runnable on 'thread', 2 = fiber_yield by 'who' on 'thread'
+// returned without any switch
 typedef struct gev {
   uint8_t type;
   int8_t thread;
